@@ -119,6 +119,12 @@ def run(ctx):
             for var, opc in (('coefficient', 0), ('fft', 100)):
                 o = vlib.run_lines(exe, [line.replace('tgsw 0', 'tgsw %d' % opc, 1)])[0]
                 ctx.count((l, B, k, 'randrows', var)); nB += 1
+                if not o.startswith('CRASH'):
+                    # the same product with every array (TGSW rows, accumulator, result, the library's temporaries) ending at an inaccessible page (harness/guard_new.h)
+                    og = vlib.run_lines(exe, ['guard 1', line.replace('tgsw 0', 'tgsw %d' % opc, 1)])[1]; ctx.count((l, B, k, 'randrows', var, 'guard'))
+                    if og.startswith('CRASH') or og.strip() != o.strip():
+                        ctx.report('out-of-bounds-at-page-end', '%s variant (l,B)=(%d,%d) k=%d: the external product %s when every array ends at an inaccessible page: %s' % (
+                            var, l, B, k, 'dies (it reads or writes past the end of an array)' if og.startswith('CRASH') else 'gives a different result than on the ordinary heap', og[:60]), {'case': line[:200000], 'opcode': opc, 'guard': 1})
                 d = maxdiff(ints(o), mo) if not o.startswith('CRASH') else 2**32
                 # random 32-bit rows: the double-precision products carry (k+1)l*N*2^(B-1)*2^31; the error grows accordingly
                 tolr = tol * 4
@@ -316,6 +322,7 @@ def replay(ctx, data):
     if 'case' not in data: print(json.dumps(data)[:1000]); return 0
     line = data['case']; opc = data.get('opcode', 0)
     op = line.split()[0]
+    if data.get('guard'): return vlib.guard_replay(exe, dict(data, case=line.replace('%s 0' % op, '%s %d' % (op, opc), 1)))
     o = vlib.run_lines(exe, [line.replace('%s 0' % op, '%s %d' % (op, opc), 1)], timeout=900)[0]
     m = vlib.run_model([line], 'fast', timeout=3000)[0]
     d = maxdiff(ints(o), ints(m)) if not o.startswith('CRASH') else -1
